@@ -120,3 +120,23 @@ Proof. apply toks_eqb_eq. Qed.
 
 Theorem unchangedzb_spec before after : unchangedzb before after = true <-> before = after.
 Proof. apply (list_eqb_spec Z.eqb Z.eqb_eq). Qed.
+
+(* the length checker of a history step: when the profile exists, profile, prosodic string and
+   weights all exist and have exactly one element per token *)
+Theorem pstep_lenb_spec p l :
+  ps_son p = Ok l ->
+  (pstep_lenb p = true <->
+   (length l = length (ps_toks p) /\
+    (exists s, ps_out p = Ok s /\ length s = length (ps_toks p)) /\
+    (exists w, ps_weights p = Ok w /\ length w = length (ps_toks p)))).
+Proof.
+  intros E. unfold pstep_lenb. rewrite E. cbn [len_okb]. rewrite !andb_true_iff, Nat.eqb_eq.
+  split.
+  - intros [[L O] W]. split; [exact L|]. split.
+    + destruct (ps_out p) as [s| | |]; cbn [len_okb] in O; try discriminate.
+      exists s. split; [reflexivity|now apply Nat.eqb_eq].
+    + destruct (ps_weights p) as [w| | |]; cbn [len_okb] in W; try discriminate.
+      exists w. split; [reflexivity|now apply Nat.eqb_eq].
+  - intros (L & (s & Es & Ls) & (w & Ew & Lw)). rewrite Es, Ew. cbn [len_okb].
+    repeat split; [exact L|now apply Nat.eqb_eq|now apply Nat.eqb_eq].
+Qed.
